@@ -56,6 +56,10 @@ theorem uint_tied :
 
 theorem delta_code_err_tied (code delta : Nat) (target reference : Unit) :
     Gen.AigerToken.deltaCodeErr code delta target reference = Aiger.errorAtMark := deltaCodeErr_eq code delta target reference
+/-- `binary_uint`: both loops (length with the 10-byte limit, value with the overflow test on the wrapping
+shift), `buf()[..n]`, `advance`. -/
+theorem binary_uint_tied : Gen.AigerToken.binaryUint = Aiger.binaryUint := binaryUint_eq
+
 theorem delta_code_tied (code : Nat) (target reference : Unit) :
     Gen.AigerToken.deltaCode code target reference = Aiger.deltaCode code := deltaCode_eq code target reference
 theorem not_assigning_tied {α : Type} (intValue : Nat) (what value : Unit) :
